@@ -69,6 +69,8 @@ def configs(tier):
     for kind, n in e2e:
         for letter in ("X", "Y"):
             out.append({"part": "end-to-end", "obs": letter, "kind": kind, "n": n})
+    out.append({"part": "end-to-end", "obs": "Y", "kind": "complex", "n": 1, "via": "deepcopy"})      # observables of a copied state
+    out.append({"part": "end-to-end", "obs": "X", "kind": "mixed", "n": 1, "via": "deepcopy"})
     out.append({"generic": "every shape"})
     out.append({"lean": "size-generic lemmas"})
     return out
